@@ -321,7 +321,7 @@ func c02Helpers(c CaseC02) *hx.Failure {
 		return hx.Failf("create-CreateTestPacket", "PUSI %v want %v", p[1]&0x40 != 0, c.PUSI)
 	}
 	p = packet.CreateDCPacket(pid, cc)
-	if f := hdr("CreateDCPacket", p, true, true); f != nil {
+	if f := hdr("CreateDCPacket", p, true, false); f != nil { // only PID and counter are requested
 		return f
 	}
 	if int(p[3]&0xf) != c.CC {
@@ -349,8 +349,9 @@ func c02Helpers(c CaseC02) *hx.Failure {
 	// free SetPayload on a payload-only packet
 	q := packet.Create(pid, packet.WithHasPayloadFlag)
 	n := packet.SetPayload(q, c.HPay)
-	if n != k || !bytes.Equal(q[4:4+k], keep[:k]) {
-		return hx.Failf("create-SetPayload", "free SetPayload stored %d bytes, want %d, or wrote other bytes", n, k)
+	qp, qerr := packet.Payload(q)
+	if n != k || qerr != nil || len(qp) < k || !bytes.Equal(qp[:k], keep[:k]) {
+		return hx.Failf("create-SetPayload", "free SetPayload reported %d bytes (want %d); the payload read back (%d bytes, err %v) does not start with them", n, k, len(qp), qerr)
 	}
 	// WithPES
 	q = packet.Create(pid)
